@@ -301,6 +301,21 @@ pub fn typed(args: &[&str]) -> Option<Vec<String>> {
             }
             match b {
                 "-" | "subject" => text_case!(header::Subject, "sUBJECT"),
+                // the same through `MessageBuilder::subject`: the header of the built message is the one asked for
+                "subject-builder" => {
+                    let v = header::Subject::from(unhex_str(a)?);
+                    let m = lettre::Message::builder()
+                        .from("a@b.c".parse().ok()?)
+                        .to("x@y.z".parse().ok()?)
+                        .subject(unhex_str(a)?)
+                        .body(String::from("x"))
+                        .ok()?;
+                    let got = m.headers().get::<header::Subject>();
+                    if let Some(g) = got.clone() {
+                        h.set(g);
+                    }
+                    chk(got.map(|g| g == v), h.clone().remove::<header::Subject>().map(|g| g == v), { let mut h2 = h.clone(); h2.remove::<header::Subject>(); h2.get::<header::Subject>().is_none() })
+                }
                 "comments" => text_case!(header::Comments, "cOMMENTS"),
                 "keywords" => text_case!(header::Keywords, "kEYWORDS"),
                 "in-reply-to" => text_case!(header::InReplyTo, "iN-rEPLY-tO"),
@@ -323,6 +338,9 @@ pub fn typed(args: &[&str]) -> Option<Vec<String>> {
 /// then `.body("x")` → envelope / error, and facts about the formatted header section
 pub fn build(args: &[&str]) -> Option<Vec<String>> {
     let mut b = lettre::Message::builder().date(UNIX_EPOCH + Duration::from_secs(1_700_000_000));
+    // how the message is finished (`Z:<k>`): `x` a raw body "x" (default), `e` an empty raw body, `s` / `m` / `h` a MIME body
+    // (single part, multipart/mixed, `alternative_plain_html`)
+    let mut finish = "x".to_string();
     if *args.first()? != "-" {
         for op in args[0].split(',') {
             let f: Vec<&str> = op.split(':').collect();
@@ -330,6 +348,10 @@ pub fn build(args: &[&str]) -> Option<Vec<String>> {
                 ["K"] => b.keep_bcc(),
                 // `date_now()` (the Date set before is replaced, not duplicated) and `user_agent(text)`
                 ["D"] => b.date_now(),
+                ["Z", k] => {
+                    finish = k.to_string();
+                    b
+                }
                 ["U", t] => b.user_agent(unhex_str(t)?),
                 ["E", from, to] => {
                     let from = if *from == "-" { None } else { Some(unhex_str(from)?.parse::<Address>().ok()?) };
@@ -352,7 +374,16 @@ pub fn build(args: &[&str]) -> Option<Vec<String>> {
             };
         }
     }
-    Some(match b.body(String::from("x")) {
+    use lettre::message::{MultiPart, SinglePart};
+    let built = match finish.as_str() {
+        "x" => b.body(String::from("x")),
+        "e" => b.body(String::new()),
+        "s" => b.singlepart(SinglePart::plain(String::from("x"))),
+        "m" => b.multipart(MultiPart::mixed().singlepart(SinglePart::plain(String::from("x")))),
+        "h" => b.multipart(MultiPart::alternative_plain_html(String::from("x"), String::from("<p>x</p>"))),
+        _ => return None,
+    };
+    Some(match built {
         Ok(m) => {
             let e = m.envelope();
             let f = m.formatted();
@@ -367,7 +398,14 @@ pub fn build(args: &[&str]) -> Option<Vec<String>> {
                     e.from().map(|a| hex(a.to_string().as_bytes())).unwrap_or("none".into()),
                     hex_list(&e.to().iter().map(|a| a.to_string().into_bytes()).collect::<Vec<_>>())
                 ),
-                format!("bcc={},date={},from={},mime={}", count(b"Bcc:"), count(b"Date:"), count(b"From:"), count(b"MIME-Version:")),
+                format!(
+                    "bcc={},date={},from={},mime={},term={}",
+                    count(b"Bcc:"),
+                    count(b"Date:"),
+                    count(b"From:"),
+                    count(b"MIME-Version:"),
+                    usize::from(f.windows(4).any(|w| w == b"\r\n\r\n"))
+                ),
                 hex(head),
             ]
         }
